@@ -553,6 +553,37 @@ theorem from_chunks_arithmetic_unchecked_counterexample :
     documented 64 .uFromChunks [.dec (2 ^ 64 - 1), .int 1, .int 0, .int 255] = some .allocTooMuch :=
   Dashu.Proofs.Panic.from_chunks_arithmetic_unchecked
 
+/-- `Context::powi`: the working precisions `precision + guard_bits` / `precision + guard_digits` (mirrored in
+    `fPowiPrecisionFits`, regenerated text: `C16Gen.powi_precision_is_generated`) stay inside `usize` for every exponent when the
+    context precision is 192 + bit_len(exp) below `usize::MAX` … -/
+theorem fbig_powi_precision_fits (p : Nat) (e : Int) (h : p + bitLen e.natAbs + 192 ≤ usizeMax) :
+    fPowiPrecisionFits p e = true := by
+  have hu : usizeMax = 2 ^ 64 - 1 := rfl
+  have hp : bitLen p ≤ 64 := bitLen_le p 64 (by omega)
+  have hr : fPowiRevPrecision p ≤ p + 128 := by unfold fPowiRevPrecision; omega
+  have hrb : bitLen (fPowiRevPrecision p) ≤ 64 := bitLen_le _ 64 (by omega)
+  unfold fPowiPrecisionFits
+  by_cases h0 : p = 0
+  · simp [h0]
+  · by_cases hneg : e < 0
+    · have h1 : fPowiRevPrecision p ≤ usizeMax := by omega
+      have h2 : fPowiWorkPrecision (fPowiRevPrecision p) e.natAbs ≤ usizeMax := by
+        unfold fPowiWorkPrecision; omega
+      simp [h0, hneg, h1, h2]
+    · have h2 : fPowiWorkPrecision p e.natAbs ≤ usizeMax := by unfold fPowiWorkPrecision; omega
+      simp [h0, hneg, h2]
+
+/-- … and NOT for every valid precision (finding float_precision_usize_overflow, the part fix 5768014 left): 3^5 at precision
+    `usize::MAX` — no panic documented — needs `usize::MAX + 67`; the boundary for exponent 5 is `usize::MAX − 66 / − 67`
+    (the corpus witnesses); a negative exponent already fails at `usize::MAX − 115` (line 127: + 128) -/
+theorem fbig_powi_precision_counterexample :
+    fPowiPrecisionFits usizeMax 5 = false ∧ fPowiPrecisionFits (usizeMax - 66) 5 = false ∧
+    fPowiPrecisionFits (usizeMax - 67) 5 = true ∧ fPowiPrecisionFits (usizeMax - 115) (-5) = false ∧
+    fPowiRevPrecision (usizeMax - 127) = usizeMax + 1 ∧      -- release: wraps to exactly 0 = "unlimited" ⇒ UnlimitedPrecision
+    documented 64 .fPowi [.flt ⟨2, 3, 0, usizeMax, 'Z'⟩, .int 5] = none := by decide +kernel
+
+example : fPowiPrecisionFits 100 (-(2 ^ 64 : Int)) = true := fbig_powi_precision_fits 100 _ (by decide +kernel)
+
 /-- `RBig/Relaxed::to_float(0)`: the bare assert stops the call exactly where UnlimitedPrecision is documented -/
 theorem rbig_to_float_assert_guard (W : Nat) (n d : Int) (c : Char) (p : Nat) (hd : 0 < d) :
     qToFloatAssertFails p = true ↔
